@@ -55,4 +55,7 @@ def check(ctx) -> Result:
     for _cn in ['Sampler', 'QuickSampler', 'Analyzer']:
         n7 += _rf.f7_setters_store_the_object(ctx, res, ctx.ix.cls(_cn))
     res.floor("F7 setter stores", n7, 3)
+    from ..rules import rz_falsy
+    nz = rz_falsy.none_checks(ctx, res, "C11", rz_falsy.EMULATOR_EXTRA)
+    res.floor("Z functions scanned", nz, 3)
     return res
